@@ -548,6 +548,13 @@ def _decode_cases(world, cls, name, unsigned, depth=0):
     definer = r[0]
     fn = definer.methods[name][1]
     fn = normalise(fn, world, definer.mod, definer, aliases=False)
+    # a lookup in a class-level table of names reads as the if-chain
+    from ..unroll import expand_table_lookups, class_table_resolver
+    fx = acopy(fn)
+    rt, nn = class_table_resolver(world, definer, definer.mod)
+    if expand_table_lookups(fx, rt, nn):
+        ast.fix_missing_locations(fx)
+        fn = fx
     params = [a.arg for a in fn.args.args]
     if len(params) != 2:
         return None
@@ -732,8 +739,13 @@ def _match_forms(exp, got, unsigned, decq):
             return t
         gotmap = {g[2]: g for g in got}
         problems = []
-        # the expected forms speak about 1-byte versions through be[0:1]
-        hyp = (("le", "0", "n", 1),)
+        # the expected forms speak about 1-byte versions through be[0:1];
+        # an unsigned read is never negative
+        syms = {a[i] for g in got for c in g[1] for a in c
+                if a[0] == "le" for i in (1, 2)}
+        hyp = (("le", "0", "n", 1),) + tuple(
+            ("le", "0", s_, 0) for s_ in sorted(syms)
+            if s_.startswith("be[") and s_.endswith(";False]"))
         for (d, condtree) in exp:
             k = canon_exp(d)
             want = pred.dnf(condtree)
